@@ -38,18 +38,10 @@ class CheckC02(core.Check):
         rnd = random.Random(self.seed * 104729 + 2)
         descs = []
         combos = [(d, c, h) for d in DHS for c in CIPHERS for h in HASHES]
-        if self.tier == "quick":
-            k = rnd.randrange(24)
-            for p, ps in all_variants():
-                for _ in range(2):
-                    d, c, h = combos[k % 24]
-                    k += 7
-                    descs.append((make_name(p, ps, d, c, h), rnd.getrandbits(32)))
-        else:
-            for n in all_names():
-                for _ in range(2):
-                    descs.append((n, rnd.getrandbits(32)))
-            self.exhaustive = True
+        self.exhaustive = True  # every protocol name is run; keys, payloads and traffic shapes are sampled
+        for n in all_names():
+            for _ in range(1 if self.tier == "quick" else 8):
+                descs.append((n, rnd.getrandbits(32)))
         return descs
 
     def extra_cfg_plans(self):
